@@ -1,3 +1,4 @@
+import BufModel.Path
 /-
   BufModel.Annot — executable model of private/bufpkg/bufanalysis (file annotations: compare,
   de-duplication key, sort, the five printers) and of the exit-status decision of
@@ -16,6 +17,10 @@
   `parseDoc` for a whole document) — `BufProofs.C20.formats_decode` proves they invert the
   printers, the driver runs them on the real output — and a model of the Go error VALUES the exit
   status is computed from (`GoErr`, `handleFAS`, `wrapError`, `getExitCode`).
+
+  Last section: the fate of an IMPORT PATH as written (`importFate`: a file of the module set, a
+  Well-Known Type, not found, rejected by normalpath, an existing file not named by its normalised
+  path) and the error values bufimage.BuildImage / bufmodule's ModuleDeps() return for it.
 
   Strings are `List Char` (valid UTF-8 Go strings).  Line/column numbers are `Nat` (the
   producers — protocompile locations, check plugins — never emit negative numbers; 0 = unknown).
@@ -1176,5 +1181,68 @@ def Cmd.closeErr : Cmd → Step
   | .lint _ _ _ cl => cl
   | .breaking _ _ _ cl => cl
   | _ => none
+
+/-! ### import statements whose file cannot be resolved
+    (bufimage `parserAccessorHandler.Open` / `getBuildResult`, bufmodule `getModuleDepsRec`)
+
+protocompile asks the accessor for the import path exactly AS WRITTEN in the statement.  The
+module set's bucket validates and normalises it (`normalpath.NormalizeAndValidate`: an absolute
+path and a path that leaves the root are errors of their own, NOT fs.ErrNotExist); a file is
+found by its normalised path, and the accessor refuses a file whose path is not the requested
+string ("parser accessor requested path … but got …"); what the module set does not have is
+looked up among the Well-Known Types.  Whatever the reason, protocompile returns ONE positioned
+error from `Compile` (at the path literal of the import statement) and `getBuildResult` converts
+every positioned error into a FileAnnotationSet — the conversion does not look at the cause. -/
+
+/-- what the accessor answers for an import path as written -/
+inductive ImportFate where
+  /-- a `.proto` file of the module set, named by its normalised path -/
+  | file
+  /-- not in the module set, a Well-Known Type shipped with buf -/
+  | wkt
+  /-- fs.ErrNotExist: "import "x": file does not exist" -/
+  | notExist
+  /-- normalpath error: "expected to be relative" / "is outside the context directory" -/
+  | invalid (e : Path.PErr)
+  /-- names an existing file, but not by its normalised path (`./a.proto`, `a//b.proto`, `a/../b.proto`, `a.proto/`) -/
+  | notNormal
+deriving DecidableEq, Repr
+
+/-- `files`: the `.proto` files of the module set (normalised paths, excluded files left out);
+    `wkt`: datawkt.AllFilePaths. -/
+def importFate (files wkt : List Str) (p : Str) : ImportFate :=
+  match Path.normalizeAndValidate p with
+  | .error e => .invalid e
+  | .ok q =>
+    if files.contains q then (if q = p then .file else .notNormal)
+    else if wkt.contains q then (if q = p then .wkt else .notNormal)
+    else .notExist
+
+def ImportFate.resolves : ImportFate → Bool
+  | .file => true
+  | .wkt => true
+  | _ => false
+
+/-- what bufimage.BuildImage returns for a file whose only problem is an import statement of
+    that fate; `a` = the annotation at the importing file / the path literal.  As coded: every
+    positioned error `Compile` returns is converted. -/
+def buildImageErr (a : Annot) (f : ImportFate) : Step :=
+  if f.resolves then none else some (.annotSet a [])
+
+/-- NOT as coded (a recorded regression): the conversion additionally requires
+    `errors.Is(err, fs.ErrNotExist)`; every other positioned error stays what protocompile
+    returned, an ErrorWithPos around the accessor's error. -/
+def buildImageErrGuarded (a : Annot) (f : ImportFate) : Step :=
+  if f.resolves then none
+  else if f = .notExist then some (.annotSet a []) else some (.wrapf (.plain true))
+
+/-- what `Module.ModuleDeps()` (reached by `buf dep graph` only) returns for the same statement,
+    as coded: `getModuleForFilePath` finds a file by its NORMALISED path; only fs.ErrNotExist is
+    turned into the ImportNotExistError (unless `datawkt.Exists` of the normalised path), any
+    other error - the normalpath ones - is returned as it is. -/
+def moduleDepsErr (files wkt : List Str) (p : Str) : Step :=
+  match Path.normalizeAndValidate p with
+  | .error _ => some (.plain true)
+  | .ok q => if files.contains q || wkt.contains q then none else some .importNotExist
 
 end BufModel.Annot
